@@ -248,6 +248,34 @@ Theorem C18_invocation_order : forall oc ds alive, Forall (fun p => check_index 
 Proof. exact invocation_order. Qed.
 Print Assumptions C18_invocation_order.
 
+(* a launched plugin's identity is its file name: whatever name and index it declares in its RegisterPlugin request
+   (another valid index, an empty name, a malformed index), r.plugins after Start is the same list … *)
+Theorem C18_identity_is_file_name : forall decl oc ds, start_plugins_declared decl oc ds = start_plugins oc ds.
+Proof. exact declared_identity_irrelevant. Qed.
+Print Assumptions C18_identity_is_file_name.
+
+(* … so which plugins an event reaches, and in which order, is a function of the file names (and of the plugins'
+   health) only: equal for any two assignments of declared identities *)
+Theorem C18_invocation_order_by_file_name : forall decl decl' oc ds alive,
+  invoked alive (start_plugins_declared decl oc ds) = invoked alive (start_plugins_declared decl' oc ds).
+Proof. exact invocation_independent_of_declared. Qed.
+Print Assumptions C18_invocation_order_by_file_name.
+
+(* not vacuous: when launched plugins are validated and named by their request like external ones, a plugin declaring
+   index 90 moves behind the others and one declaring the malformed index "9" is lost *)
+Theorem C18_all_validated_refuted : exists decl oc ds,
+  map d_name (start_plugins oc ds) = ["10-x"; "20-y"; "30-z"; "40-w"] /\
+  map d_name (start_plugins_all_validated decl oc ds) = ["20-y"; "30-z"; "90-x"].
+Proof. exact all_validated_refuted. Qed.
+Print Assumptions C18_all_validated_refuted.
+
+Example C18_register_example :
+  let p := {| d_idx := "10"; d_base := "x"; d_cfg := "c" |} in
+  register_plugin false p "other" "90" = Some p /\ register_plugin false p "" "ab" = Some p /\
+  register_plugin true p "other" "90" = Some {| d_idx := "90"; d_base := "other"; d_cfg := "c" |} /\
+  register_plugin true p "" "90" = None /\ register_plugin true p "x" "9" = None.
+Proof. repeat split; reflexivity. Qed.
+
 Theorem C18_discovered_indices_valid : forall es d l, discover_plugins es d = Some l ->
   Forall (fun p => check_index (d_idx p) = true) l.
 Proof. exact discovered_indices_valid. Qed.
